@@ -16,6 +16,7 @@ import (
 	"database/sql"
 	"errors"
 	"fmt"
+	"reflect"
 	"strings"
 	"time"
 
@@ -406,6 +407,8 @@ func (g *gen) evolve(ts []dtab, kind string) ([]dtab, bool) {
 	return ts, true
 }
 
+var replaySpurious = map[string]int{}
+
 // ---- one case
 
 func runReplay(w *out.W, tier string) {
@@ -441,6 +444,9 @@ func runReplay(w *out.W, tier string) {
 			cfg.indent = "  "
 		}
 		replayCase(w, fmt.Sprintf("r%d", i), g, cfg, scope)
+	}
+	for k, v := range replaySpurious {
+		w.Dist["obs:modified-without-description-change:"+k] = v
 	}
 }
 
@@ -690,6 +696,15 @@ func replayCaseLine(drv *devDrv, cfg planCfg, cur, des []dtab, desS *schema.Sche
 		if t2, ok := desS.Table(t1.Name); ok {
 			if ch, err := drv.TableDiff(t1, t2); err != nil || len(ch) > 0 {
 				mods = append(mods, hx(t1.Name))
+				for _, a := range cur {
+					for _, b := range des {
+						if a.name == t1.Name && b.name == t1.Name && reflect.DeepEqual(a, b) {
+							// observation (not C16's subject): a table whose description did not
+							// change is reported as modified
+							replaySpurious[fmt.Sprintf("%v:%T", cfg.pg, ch[0])]++
+						}
+					}
+				}
 			}
 		}
 	}
